@@ -36,7 +36,9 @@ var feats = []feat{
 	{"easy", false, false, false, func(ip string, b int) []string { return []string{j(ip, b), j(ip, b)} }},
 	{"easypub", false, false, true, func(ip string, b int) []string { return []string{j(ip, b), j(ip, b)} }},
 	{"hardreg", true, true, false, func(ip string, b int) []string { return []string{j(ip, b), j(ip, b+3)} }},
+	{"hardregdesc", true, true, false, func(ip string, b int) []string { return []string{j(ip, b+3), j(ip, b)} }}, // the newer mapping has the lower port
 	{"hardirr", true, false, false, func(ip string, b int) []string { return []string{j(ip, b), j(ip, b+500)} }},
+	{"hardirrdesc", true, false, false, func(ip string, b int) []string { return []string{j(ip, b+500), j(ip, b)} }}, // far apart, the newer mapping lower
 	{"hardip", true, false, false, func(ip string, b int) []string { return []string{j(ip, b), j("9."+ip[2:], b)} }},
 	{"hardboth", true, false, false, func(ip string, b int) []string { return []string{j(ip, b), j("9."+ip[2:], b+7)} }},
 }
@@ -520,7 +522,7 @@ func main() {
 	if c == nil {
 		return
 	}
-	c.Rule("E1: (a) for all 36 pairs of NAT feature classes, BFS over histories of {exchange, exchange + success report} to depth D through the real Controller (HandleVisitor / HandleClient / HandleReport on the virtual clock), deduplicated on the analyzer's score vector; every round checked against the statement (same sid and mode, one sender + one receiver, mode rule, each side gets the other's addresses, port ranges inside 1..65535); boundary ports and malformed address lists must yield errors to both; signatures {right, other key, stale timestamp, garbage, none} x proxy secret key {set, empty}: a session only for the right one; (b) complete exchanges on the real frps racing with proxy close / owner or visitor disconnect / unknown and duplicate messages under deviation-bounded DFS; non-trivial = distinct score vector / end state")
+	c.Rule("E1: (a) for all 64 pairs of NAT feature classes (easy, easy + public, hard with regular port change ascending / descending, irregular ascending / descending, with IP change, with both), BFS over histories of {exchange, exchange + success report} to depth D through the real Controller (HandleVisitor / HandleClient / HandleReport on the virtual clock), deduplicated on the analyzer's score vector; every round checked against the statement (same sid and mode, one sender + one receiver, mode rule, each side gets the other's addresses, port ranges inside 1..65535); boundary ports and malformed address lists must yield errors to both; signatures {right, other key, stale timestamp, garbage, none} x proxy secret key {set, empty}: a session only for the right one; (b) complete exchanges on the real frps racing with proxy close / owner or visitor disconnect / unknown and duplicate messages under deviation-bounded DFS; non-trivial = distinct score vector / end state")
 	c.Assume("(c) 'two honest peers find each other' is not decided here: MakeHole needs IP TTL control on real sockets and uniformly random port sets, which the virtual network and the two-valued random source do not provide (see DESIGN.md)")
 	pool := vs.GetPool(c.Workers)
 	depth := drv.Pick(c, 6, 10)
